@@ -27,32 +27,64 @@ impl Drop for LogChunk {
 }
 impl Read for LogChunk {
     fn read(&mut self, buf: &mut [u8]) -> io::Result<usize> {
-        self.inner.read(buf)
+        if let Some(kind) = crate::io::on_call("chunk.read") {
+            return Err(crate::io::io_error(&kind));
+        }
+        let avail = (self.inner.get_ref().len() as u64).saturating_sub(self.inner.position()) as usize;
+        let n = buf.len().min(avail);
+        if n == 0 {
+            return self.inner.read(buf);
+        }
+        let n = crate::io::plan(true, n)?;
+        self.inner.read(&mut buf[..n])
     }
 }
 impl Write for LogChunk {
     fn write(&mut self, buf: &[u8]) -> io::Result<usize> {
-        self.inner.write(buf)
+        if let Some(kind) = crate::io::on_call("chunk.write") {
+            if kind == "zero" {
+                return Ok(0);
+            }
+            return Err(crate::io::io_error(&kind));
+        }
+        if buf.is_empty() {
+            return Ok(0);
+        }
+        let n = crate::io::plan(false, buf.len())?;
+        self.inner.write(&buf[..n])
     }
     fn flush(&mut self) -> io::Result<()> {
+        if let Some(kind) = crate::io::on_call("chunk.flush") {
+            return Err(crate::io::io_error(&kind));
+        }
         self.inner.flush()
     }
 }
 impl Seek for LogChunk {
     fn seek(&mut self, pos: SeekFrom) -> io::Result<u64> {
+        if let Some(kind) = crate::io::on_call("chunk.seek") {
+            return Err(crate::io::io_error(&kind));
+        }
         self.inner.seek(pos)
     }
 }
 
 pub struct LogCreator {
-    next: RefCell<u64>,
-    log: Pending,
+    pub next: RefCell<u64>,
+    pub log: Pending,
 }
 
 impl ChunkCreator for LogCreator {
     type Chunk = LogChunk;
-    type Error = io::Error;
-    fn create(&self) -> Result<LogChunk, io::Error> {
+    type Error = grenad::Error;
+    fn create(&self) -> Result<LogChunk, grenad::Error> {
+        if let Some(kind) = crate::io::on_call("create") {
+            return Err(match kind.as_str() {
+                "create:fmt" => grenad::Error::InvalidFormatVersion,
+                "create:codec" => grenad::Error::InvalidCompressionType,
+                k => grenad::Error::Io(crate::io::io_error(k)),
+            });
+        }
         let mut n = self.next.borrow_mut();
         *n += 1;
         self.log.borrow_mut().push(json!({"ev": "Create", "id": *n}));
@@ -295,8 +327,14 @@ pub fn random_scfg(r: &mut R, small_scale: bool) -> SCfg {
         levels: *pick(r, &[0u8, 0, 1, 2]),
     };
     let hook = if small_scale {
-        let t = *pick(r, &[128usize, 200, 256, 500, 1000, 1024, 2048, 4099, 8192]);
-        let init = *pick(r, &[32usize, 48, 64, 100, 128, t / 2, t]);
+        // budgets on, just below and well below the capacities the doubling buffer can take
+        let t = if r.gen_bool(0.5) {
+            *pick(r, &[128usize, 200, 256, 500, 1000, 1024, 2048, 4099, 8192])
+        } else {
+            let m = r.gen_range(7..=13u32);
+            ((1usize << m) as f64 * r.gen_range(0.5..1.0)) as usize
+        };
+        let init = *pick(r, &[32usize, 32, 48, 64, 64, 100, 128, t / 2, t]);
         Some((t, init.max(16)))
     } else {
         None
